@@ -26,12 +26,13 @@ FUNCTIONS = ["HybridFrontend." + m for m in ["_do_call", "_hybrid_call", "_appro
                                              "finalize"]] + \
             ["ReplacementFrontend." + m for m in ["eval", "batch_eval", "max", "min", "solution", "is_true", "is_false", "satisfiable", "_add", "add_replacement",
                                                   "_replacement", "_replace_list", "_copy", "_blank_copy", "downsize", "remove_replacements", "clear_replacements"]] + \
+            ["LightFrontend." + m + " (the approximate frontend / SolverVSA: never excludes a value that exists; a backend refusal surfaces as ClaripyFrontendError, shared with C24)" for m in ["eval", "min", "max", "solution", "is_true", "is_false", "satisfiable", "batch_eval"]] + \
             ["ConcreteHandlerMixin / ConstraintDeduplicatorMixin / EagerResolutionMixin / ConstraintFilterMixin / SimplifySkipperMixin of the SolverReplacement and SolverHybrid stacks (vf/contracts/layers.py, shared with C11)"]
 TRUSTED = _rtc.RTC_TRUSTED + ["contract of claripy.replace_dict (C08): the result agrees with the original wherever the dictionary's equalities hold",
                               "contract of the actual frontend (records constraints, answers queries; its own correctness is C11)"]
 ASSUMPTIONS = ["ReplacementFrontend is parametric in the constraint language: the proof is over a universe of 4 assignments and 2-bit values",
                "default safe settings only (auto_replace, not unsafe_replacement, not complex_auto_replace); user-supplied add_replacement() calls are outside the statement",
-               "HybridFrontend: the dispatch between the two frontends and the invariant 'both hold the solver's constraints, neither is shared' are proved; that the approximate frontend's ANSWERS over-approximate is C24",
+               "HybridFrontend: the dispatch between the two frontends and the invariant 'both hold the solver's constraints, neither is shared' are proved; that the approximate frontend's ANSWERS over-approximate is proved for LightFrontend over the VSA backend's contract (light.*), the backend's own lemmas are C24's",
                "per-method contracts compose to histories by induction (stated, not mechanised)"]
 
 
@@ -45,5 +46,9 @@ def tasks(tier, seed=0):
     from vf.contracts import layers
     out += layers.all_tasks(tier, only=("ConcreteHandlerMixin", "ConstraintDeduplicatorMixin", "EagerResolutionMixin", "ConstraintFilterMixin", "SimplifySkipperMixin"))
     out.append(task("vf.contracts.layers", "ob_stack_composition", "layer.stacks/every-layer-under-contract+caches-over-exact-frontends", ["C11", "C13"], replay="vf.contracts.layers:replay_composition"))
+    # "SolverVSA never excludes a value that exists" and the approximate side of SolverHybrid: LightFrontend over the VSA backend's contract
+    # (the same obligations as under C24)
+    from vf.contracts import vsaops
+    out += [task("vf.contracts.vsaops", "ob_light", f"light.{m}/sound", ["C24", "C13"], method=m, tier=tier) for m in vsaops.LIGHT_METHODS]
     out.append(task("vf.contracts.canaries", "ob_canaries", "harness.canaries/wrong-methods-are-noticed", ["C03", "C11", "C12", "C13", "C15"], tier=tier))
     return out + _rtc.rtc_tasks("C13", tier, seed)
